@@ -184,8 +184,9 @@ _public_ void *m_list_find(m_list_t *l, void *data) {
 _public_ int m_list_clear(m_list_t *l) {
     M_PARAM_ASSERT(l);
     
-    for (m_list_itr_t *itr = m_list_itr_new(l); itr; m_list_itr_next(&itr)) {
-        m_list_itr_remove(itr);
+    /* No iterator here: clearing (and thus freeing) a list must not depend upon memory being available */
+    while (l->len > 0) {
+        remove_node(l, &l->data);
     }
     return 0;
 }
